@@ -49,7 +49,7 @@ def gen_lines(rng, cls="plain", max_measures=6):
     undefined_ids = [i for i in ("02", "XY", "7K") if i not in wav_ids and i != lnobj]
     use_ln = cls != "no_lnobj"
     header = [("PLAYER", "1"), ("GENRE", rng.choice(["Trance", "J-POP", "a b c"])),
-              ("TITLE", rng.choice(["Cold Breath", "take [ANOTHER]", "searoad", "X", "夜の歌"])),
+              ("TITLE", rng.choice(["Cold Breath", "take [ANOTHER]", "searoad", "X", "夜の歌", "Fly \u301caway\u301c", "A \u2016 B \u2212 C", "5\u00a2 \u00a3 \u00ac"])),  # incl. the characters Shift-JIS and cp932 map differently
               ("ARTIST", rng.choice(["me", "DJ Foo feat. Bar", "obj: someone"])),
               ("BPM", rng.choice(["120", "150", "180.5", "93", "200", "139.99"])),
               ("PLAYLEVEL", str(rng.randint(1, 12))), ("RANK", "2"), ("TOTAL", "300"), ("STAGEFILE", "bg.bmp")]
